@@ -42,6 +42,7 @@ struct gm_spec {
 	uint8_t chain_len;      /* length of zero-delay chains (0: only the short ttl<=3 chains encoded in the type) */
 	uint8_t chain_start;    /* probability (/256) that a heartbeat starts a zero-delay chain of its own */
 	uint8_t hb_scale;       /* heartbeat period multiplier: large values give sparse, well separated activity */
+	uint8_t init_zero;      /* every extra event scheduled at init is at timestamp 0 */
 	uint8_t endless;        /* LPs never freeze and their heartbeats never stop: the run ends only if the runtime's termination
 	                           detection ends it (C08 liveness family; the reference executor stops at a horizon) */
 	uint8_t n_rules;
